@@ -11,6 +11,8 @@ TWO_PI = 2 * math.pi
 # VirtualDevice(max_abs_detuning set, max_amp None) fails in its spec text
 # (C12 finding); history generators avoid it while it is unfixed.
 AVOID_SPEC_TEXT_BUG = True
+# properties about finite samples (C01, C16) switch this on in their own process
+DEGENERATE_WF = False
 PROTOCOLS = ["min-delay", "no-delay", "wait-for-all"]
 
 
@@ -302,8 +304,11 @@ def waveform_specs(draw, d, lo, hi, nonneg=False, depth=0, kinds=None,
         pool = [k for k in pool if k not in ("custom", "composite")]
     if d < 2:
         pool = [k for k in pool if k in ("const", "custom", "blackman", "kaiser")]
+        if DEGENERATE_WF and not changeable:
+            pool = pool + ["ramp"]  # RampWaveform(1, a, b): slope is 0/0
     if d < 3:
-        pool = [k for k in pool if k != "blackman"]  # Blackman(2) is 0/0
+        # Blackman(2) is 0/0 -> only generated where non-finite samples are the subject
+        pool = [k for k in pool if k != "blackman" or (DEGENERATE_WF and d == 2)]
     if d > 400:
         pool = [k for k in pool if k != "custom"]
     if depth >= 1 or d < 4:
@@ -320,6 +325,8 @@ def waveform_specs(draw, d, lo, hi, nonneg=False, depth=0, kinds=None,
 
         w = np.blackman(d) if k == "blackman" else np.kaiser(d, 14.0)
         ssum = float(np.sum(np.clip(w, 0, None)))
+        if ssum <= 0 and DEGENERATE_WF:
+            return dict(k=k, d=d, area=1.0 if hi > 0 else -1.0)
         peak_hi = hi if hi > 0 else 0.0
         peak_lo = lo if lo < 0 else 0.0
         a_hi = peak_hi * ssum / 1e3 / max(float(np.max(w)), 1e-12) if ssum > 0 else 0.0
